@@ -182,6 +182,29 @@ class Interp:
                 return False
         return True
 
+    def analyse_ctx(self, fi: FunctionInfo, binding: Dict[str, AV], depth: int) -> Optional[Summary]:
+        """Analyse `fi` with its parameters bound to the caller's abstract values (unbound parameters: fresh placeholders that
+        are *not* caller-owned)."""
+        key = (fi.qualname, tuple(sorted((k, v.origins, v.kind) for k, v in binding.items())))
+        if not hasattr(self, "_ctx_cache"):
+            self._ctx_cache = {}
+        if key in self._ctx_cache:
+            return self._ctx_cache[key]
+        if fi.qualname in self._in_progress or depth <= 0:
+            return None
+        self._in_progress.add(fi.qualname)
+        try:
+            pv = dict(binding)
+            a = fi.node.args
+            for x in a.posonlyargs + a.args + a.kwonlyargs:
+                if x.arg not in pv and x.arg not in ("self", "cls"):
+                    pv[x.arg] = OTHER  # defaulted parameter: a constant
+            s = self.analyse(fi, param_vals=pv, depth=depth - 1)
+        finally:
+            self._in_progress.discard(fi.qualname)
+        self._ctx_cache[key] = s
+        return s
+
     def summary(self, fi: FunctionInfo, depth: int) -> Optional[Summary]:
         """Context-insensitive summary with parameters as placeholders P:<name>."""
         key = fi.qualname
@@ -811,10 +834,6 @@ class _State:
         return AV(frozenset(outs), kind, av.elem)
 
     def call_repo(self, callee: FunctionInfo, e: ast.Call, args: List[AV], kws: Dict[str, AV], env) -> AV:
-        s = self.I.summary(callee, self.depth)
-        if s is None:
-            self.unknown_calls.append(f"{self.fi.short}:{e.lineno} {callee.short} (recursion / depth bound)")
-            return UNKNOWN
         a = callee.node.args
         names = [x.arg for x in a.posonlyargs + a.args]
         offset = 1 if (callee.cls is not None and names and names[0] in ("self", "cls") and not callee.has_decorator("staticmethod")
@@ -839,14 +858,29 @@ class _State:
                 binding[k.arg] = kws[k.arg]
                 exprs[k.arg] = k.value
         self.calls.append((e, callee, binding))
-        # mutated parameters -> writes at this call site
+        # context-sensitive analysis of the callee with the actual argument values (keeps guard refinements made inside helpers)
+        s = self.I.analyse_ctx(callee, binding, self.depth)
+        if s is None:
+            self.unknown_calls.append(f"{self.fi.short}:{e.lineno} {callee.short} (recursion / depth bound)")
+            return UNKNOWN
         allp = [x.arg for x in a.posonlyargs + a.args + a.kwonlyargs]
-        for idx, how in s.mutated.items():
-            if idx < len(allp) and allp[idx] in binding:
-                nm = allp[idx]
-                self.write(e, binding[nm], f"call {callee.short} mutates its parameter `{nm}` ({how})",
-                           norm(exprs[nm]) if nm in exprs else nm, via=callee.short)
-        return self._instantiate(s.returns, binding)
+        reported = set()
+        for w in s.writes:
+            # a write inside the callee that reaches one of *our* values
+            hit = None
+            for nm in allp:
+                if nm in binding and binding[nm].origins and (w.target.origins & binding[nm].origins):
+                    hit = nm
+                    break
+            if hit is None or hit in reported:
+                continue
+            reported.add(hit)
+            self.write(e, AV(w.target.origins, w.target.kind), f"call {callee.short} mutates its parameter `{hit}` ({w.how})",
+                       norm(exprs[hit]) if hit in exprs else hit, via=callee.short)
+        for node, recv, attr, val in s.stores:
+            if attr in ("_grad",):
+                self.stores.append((e, f"<{callee.short}>{recv}", attr, val))
+        return s.returns
 
 
 def _tensor_params_of_factory(interp: Interp):
